@@ -119,6 +119,14 @@ int main(VF_MAIN_ARGS)
         }
         VF_WITNESS("rfc-literal");
     }
+    if (M <= 12 && VF_ON(10) && ok && vf_strtod_calls == 1) {
+        /* C10 prefix re-parse (short buffers only; the long-number queries would double their cost): the same number in a buffer that ends at the reported parse end is consumed identically */
+        parse_buffer b2; cJSON it2; size_t e = buf.offset, consumed1 = vf_strtod_consumed;
+        memset(&b2, 0, sizeof b2); memset(&it2, 0, sizeof it2);
+        b2.content = content; b2.length = e; b2.offset = off; b2.hooks = buf.hooks;
+        VF_AP(10, parse_number(&it2, &b2) && b2.offset == e, "C10 the bytes before the parse end form by themselves the same number token");
+        VF_AP(10, vf_strtod_calls != 2 || (vf_strtod_arglen == e - off && vf_strtod_consumed == consumed1), "C10 ... and the C library is handed exactly that token");
+    }
     VF_WITNESS("end");
     free(content);
     return 0;
